@@ -22,10 +22,10 @@ JudgeLua(ev) ==
       e == FirstErr(rs) IN
   IF ev.call.r.t = "panic" \/ ev.pcall.r.t = "panic" THEN Verdict(ev, "panic while running a script")
   ELSE IF ev.pcall.sh # ev.direct.sh THEN Verdict(ev, "keyspace after redis.pcall differs from the keyspace after the direct commands")
-  ELSE IF ~PcallReplyOk(rs, ev.pcall.r) THEN Verdict(ev, "redis.pcall result differs from the converted direct reply")
+  ELSE IF ~(PcallReplyOk(rs, ev.pcall.r) \/ (ev.unordered /\ SameBag(Conv(rs[Len(rs)]), ev.pcall.r))) THEN Verdict(ev, "redis.pcall result differs from the converted direct reply")
   ELSE IF e = 0 /\ ev.call.sh # ev.direct.sh THEN Verdict(ev, "keyspace after redis.call differs from the keyspace after the direct commands")
   ELSE IF e # 0 /\ ev.call.sh # ev.direct.sh_first_err THEN Verdict(ev, "keyspace after a script stopped by an error differs from the direct commands up to that error")
-  ELSE IF ~CallReplyOk(rs, ev.call.r) THEN Verdict(ev, "redis.call result differs from the converted direct reply")
+  ELSE IF ~(CallReplyOk(rs, ev.call.r) \/ (e = 0 /\ ev.unordered /\ SameBag(Conv(rs[Len(rs)]), ev.call.r))) THEN Verdict(ev, "redis.call result differs from the converted direct reply")
   ELSE TRUE
 
 TraceInit == l = 1
